@@ -51,6 +51,12 @@ func runC06(c *Ctx) {
 	if on("histw") {
 		c06HistW(c)
 	}
+	if on("relaykeys") {
+		c06Relay(c)
+	}
+	if on("pickwait") {
+		c06PickWait(c)
+	}
 }
 
 // ---- xor --------------------------------------------------------------------------------------
